@@ -31,7 +31,7 @@ ASSUMPTIONS = ['an image whose file does not exist (or is remote; the build has 
 
 IMAGES = ['pic.png', 'img/pic2.png', 'missing.png', 'pic.png', 'http://example.com/remote.png', 'img/../pic.png']
 HOSTILE = ['alpha', 'beta & gamma', '"q"', "it's", '1 < 2', 'é中', 'tab\there', 'x > y', '&amp;', '100%']
-CFG = gdoc.Cfg(words=st.sampled_from(HOSTILE + ['plain', 'words', 'here']), inlines=['t', 'em', 'st', 'code', 'link', 'img', 'fnref'],
+CFG = gdoc.Cfg(words=st.sampled_from(HOSTILE + ['plain', 'words', 'here']), inlines=['t', 'em', 'st', 'code', 'link', 'img', 'fnref', 'cite', 'gloss'],
                blocks=['para', 'atx', 'setext', 'hr', 'fence', 'quote', 'list', 'table', 'figure', 'toc'],
                images=st.sampled_from(IMAGES), titles=st.sampled_from([None, None, 'Title here', 'T & "q"']),
                meta=st.lists(st.tuples(st.sampled_from(['Title', 'Author', 'css', 'Date', 'Keywords']), st.sampled_from(['A & B "t" <x>', 'style.css', 'Jane', '2020-01-01', 'é中'])),
